@@ -137,4 +137,12 @@ def jobs(tier):
         J.append(Job("insert.t%d.s%d" % (nt, ns), "h_argv.c", entry="h_insert", defines={"NT": nt, "NS": ns, "SL": sl},
                      unwind=nt + ns + sl + 7, extra_cbmc=FS, object_bits=12, bounded=vb(nt, ns) + "; every position in [-1,n+2]",
                      functions=["parsec_argv_insert", "parsec_argv_append"], min_obligations=8))
+    # ---- unbounded: loop contract on the real parsec_argv_count (no unwinding bound on the vector length)
+    J.append(Job("count.loop_contract", "h_count_unbounded.c", entry="h_count", loop_contracts=True, unwind=2,
+                 overlay=[("parsec/utils/argv.c", [{"function": "parsec_argv_count", "loops": 1, "loop": 0,
+                           "text": "__CPROVER_assigns(i, p) "
+                                   "__CPROVER_loop_invariant(0 <= i && (unsigned)i <= g_n && p == argv + i && "
+                                   "(g_ghost >= (unsigned)i || argv[g_ghost] != NULL)) "
+                                   "__CPROVER_decreases(g_n - (unsigned)i)"}])],
+                 functions=["parsec_argv_count"], min_obligations=6, timeout=300))
     return J
